@@ -52,6 +52,9 @@ func shape(name string) (syncTrees, allTrees []*core.Entry) {
 	case "spine":
 		syncTrees = append(vtree.TreesOf([]*core.Entry{f1, f2, l1}, []string{"a"}, 3), nil)
 		allTrees = append(vtree.TreesOf([]*core.Entry{f1, f2, l1, un, pb}, []string{"a"}, 3), nil)
+	case "n2":
+		syncTrees = append(vtree.PartialDirs([]string{"a"}, vtree.TreesOf([]*core.Entry{f1, f2}, []string{"c"}, 1)), nil)
+		allTrees = append(vtree.PartialDirs([]string{"a"}, vtree.TreesOf([]*core.Entry{f1, f2, un, pb}, []string{"c"}, 1)), nil)
 	case "h1":
 		syncTrees = append(vtree.TreesOf([]*core.Entry{f1, f2}, ab, 1), nil)
 		allTrees = append(vtree.TreesOf([]*core.Entry{f1, f2, un}, ab, 1), nil)
@@ -530,7 +533,7 @@ func execCycle(c *vlib.Ctx, shapeName, mode, pside string, anc, p, n *core.Entry
 // ---------------------------------------------------------------------------
 
 func run(c *vlib.Ctx) error {
-	shapes := []string{"d1"}
+	shapes := []string{"d1", "n2"}
 	ms := modeNames
 	nRandom := 3000
 	switch c.Prop {
@@ -538,7 +541,7 @@ func run(c *vlib.Ctx) error {
 		ms = []string{"tws"}
 	}
 	if c.Thorough() {
-		shapes = []string{"d1", "d2", "d2x", "spine"}
+		shapes = []string{"d1", "n2", "d2", "d2x", "spine"}
 		nRandom = 150000
 	}
 	for _, a := range c.Args {
